@@ -40,6 +40,14 @@ def rand_mag(rng, maxlimbs):
         return 2 ** (32 * nl) - 1
     if k < 0.15:
         return 2 ** (32 * (nl - 1)) if nl > 1 else 1
+    if k < 0.23 and maxlimbs >= 3:
+        # sparse: non-zero limbs at both ends (and perhaps one inside), zero limbs between them
+        nl = rng.randint(3, maxlimbs)
+        v = (rng.choice(BOUNDARY_LIMBS[1:] + [rng.getrandbits(32) | 1]) or 1) << (32 * (nl - 1))
+        v |= rng.choice(BOUNDARY_LIMBS[1:] + [rng.getrandbits(32) | 1]) or 1
+        if nl > 3 and rng.random() < 0.4:
+            v |= (rng.getrandbits(32) | 1) << (32 * rng.randint(1, nl - 2))
+        return v
     return v
 
 
